@@ -296,10 +296,12 @@ pub fn gen(seed: u64, n: usize) -> Vec<Value> {
             0 if i == 12 => {
                 // one text per run of tens of thousands of characters: clusters of two code points everywhere, CR LF or an
                 // ideographic space between the words
-                let (unit, sep) = [("e\u{0301}", "\r\n"), ("\u{1F1E9}\u{1F1EA}", "\u{3000}"), ("a", " \r\n")][rng.random_range(0..3)];
-                let (wlen, words) = (rng.random_range(15..=25), rng.random_range(600..=1000));
-                out.push(json!({"kind": "cleanlong", "unit": unit, "sep": sep, "wlen": wlen, "words": words, "g": true}));
-                out.push(json!({"kind": "cleanlong", "unit": unit, "sep": sep, "wlen": wlen, "words": words, "g": false}));
+                // (cluster lengths of 3, 8 and 1 / 2 bytes: wherever a block of the text ends, some cluster lies across it)
+                for (unit, sep) in [("e\u{0301}", "\r\n"), ("\u{1F1E9}\u{1F1EA}", "\u{3000}"), ("a", " \r\n")] {
+                    let (wlen, words) = (rng.random_range(15..=25), rng.random_range(600..=1000));
+                    out.push(json!({"kind": "cleanlong", "unit": unit, "sep": sep, "wlen": wlen, "words": words, "g": true}));
+                    out.push(json!({"kind": "cleanlong", "unit": unit, "sep": sep, "wlen": wlen, "words": words, "g": false}));
+                }
             }
             0 => {
                 // a few texts change the byte width of their characters at every position, several hundred times
